@@ -11,6 +11,7 @@ import (
 	"go/token"
 	"os"
 	"strconv"
+	"strings"
 	"unicode"
 	"unicode/utf8"
 
@@ -171,9 +172,10 @@ func (c *config) rewrite(node ast.Node) (ast.Node, error) {
 				tag.Name = strconv.Itoa(maxPlenc)
 
 			}
-			tags.Set(&tag)
 
-			f.Tag.Value = quote(tags.String())
+			// Keep the existing tag text exactly as it is and add the plenc tag
+			// after it
+			f.Tag.Value = appendTag(f.Tag.Value, tag.String())
 		}
 
 		return true
@@ -291,6 +293,26 @@ func plencValue(tag string) (int, error) {
 
 func quote(tag string) string {
 	return "`" + tag + "`"
+}
+
+// appendTag adds the tag text add to the end of the struct tag literal lit,
+// leaving what is already there untouched
+func appendTag(lit, add string) string {
+	if lit == "" {
+		return quote(add)
+	}
+	old, err := strconv.Unquote(lit)
+	if err != nil {
+		return lit
+	}
+	content := add
+	if old = strings.TrimRight(old, " "); strings.TrimSpace(old) != "" {
+		content = old + " " + add
+	}
+	if strings.HasPrefix(lit, "`") && !strings.Contains(content, "`") {
+		return quote(content)
+	}
+	return strconv.Quote(content)
 }
 
 type rewriteErrors []error
